@@ -400,6 +400,12 @@ def keylist_case(env, case, st):
     present("count-1", F.on_pt[:k], F.off_pt[:k], F.W, k_arg=k - 1)
     present("count+1", F.on_pt[:k + 1], F.off_pt[:k + 1], F.W)
     present("count=0", F.on_pt[:k], F.off_pt[:k], F.W, k_arg=0)
+    # counts that agree with the signature's count only modulo 256 / 2^16 (a narrowed count parameter): real, longer lists
+    for extra in (256, 512, 65536):
+        if extra == 65536 and not (full and k == 1):
+            continue
+        n2 = k + extra
+        present("count+%d" % extra, [on[i % k] for i in range(n2)], [off[i % k] for i in range(n2)], F.W)
     if k > 1:
         present("first-key-dropped", F.on_pt[1:k], F.off_pt[1:k], F.W)
     cb_check(L, st, "key list")
